@@ -3,7 +3,7 @@ import vpl, re
 from concurrent.futures import ThreadPoolExecutor
 
 LEVEL = "proof"
-LIBS = ["SoundLemmas.vo", "VtmfVerLemmas.vo"]
+LIBS = ["SoundLemmas.vo", "SoundCutLemmas.vo", "VtmfVerLemmas.vo"]
 GROUPS = ["ww", "cc", "ext"]
 
 def run(res, tier, seed, replay):
